@@ -298,6 +298,14 @@ func replicasMain(args []string) int {
 		}
 		if gg.ForSwapFee && gg.TriggeredCount > 0 {
 			cover["swapFeeGaugeTriggers"] += int(gg.TriggeredCount)
+			// swap fees of a pair that does not contain the distribution denom reached its gauge: they were converted
+			// (liquidity BeginBlocker at heights divisible by 150) and shared between the pair's pools by liquidity
+			if pool, found := g.C.App.LiquidityKeeper.GetPool(fctx, AppSwap, gg.GetLiquidityMetaData().PoolId); found {
+				pr, _ := g.C.App.LiquidityKeeper.GetPair(fctx, AppSwap, pool.PairId)
+				if pr.BaseCoinDenom != "ucmdx" && pr.QuoteCoinDenom != "ucmdx" && gg.DepositAmount.Amount.Add(gg.DistributedAmount.Amount).IsPositive() {
+					cover["feeConversions"]++
+				}
+			}
 		}
 	}
 	for _, p := range g.C.App.LiquidityKeeper.GetAllPools(fctx, AppSwap) {
@@ -312,9 +320,6 @@ func replicasMain(args []string) int {
 		cover["batches"] += int(p.CurrentBatchId)
 		if bal := g.C.App.BankKeeper.GetAllBalances(fctx, p.GetSwapFeeCollectorAddress()); !bal.IsZero() {
 			cover["pairsWithSwapFees"]++
-			if p.BaseCoinDenom != "ucmdx" && p.QuoteCoinDenom != "ucmdx" && bal.AmountOf("ucmdx").IsPositive() {
-				cover["feeConversions"]++ // fees of a pair without ucmdx were swapped into the distribution denom
-			}
 		}
 	}
 	cover["lockedVaultsV2"] = int(g.C.App.NewliqKeeper.GetLockedVaultID(fctx))
